@@ -24,6 +24,7 @@ import (
 	"github.com/aperturerobotics/bifrost/link"
 	"github.com/aperturerobotics/bifrost/peer"
 	"github.com/aperturerobotics/bifrost/signaling"
+	"github.com/aperturerobotics/bifrost/transport/common/dialer"
 	"github.com/aperturerobotics/bifrost/transport/webrtc"
 	"github.com/aperturerobotics/controllerbus/directive"
 	"github.com/sirupsen/logrus"
@@ -33,16 +34,25 @@ import (
 
 const c26SignalingID = "verif-signaling"
 
-// linkRecorder is the transport handler: it records the remote peer of every established link.
+// linkFacts is what an established link says about itself.
+type linkFacts struct {
+	remote, local                 peer.ID
+	uuid, tptUUID, remoteTptUUID uint64
+}
+
+// linkRecorder is the transport handler: it records the remote peer (and the other identifying
+// facts) of every established link.
 type linkRecorder struct {
-	mtx sync.Mutex
-	est []peer.ID
-	ch  chan struct{}
+	mtx   sync.Mutex
+	est   []peer.ID
+	facts []linkFacts
+	ch    chan struct{}
 }
 
 func (r *linkRecorder) HandleLinkEstablished(l link.Link) {
 	r.mtx.Lock()
 	r.est = append(r.est, l.GetRemotePeer())
+	r.facts = append(r.facts, linkFacts{remote: l.GetRemotePeer(), local: l.GetLocalPeer(), uuid: l.GetUUID(), tptUUID: l.GetTransportUUID(), remoteTptUUID: l.GetRemoteTransportUUID()})
 	r.mtx.Unlock()
 	select {
 	case r.ch <- struct{}{}:
@@ -59,19 +69,53 @@ func (r *linkRecorder) take() []peer.ID {
 	return e
 }
 
+func (r *linkRecorder) takeFacts() []linkFacts {
+	r.mtx.Lock()
+	defer r.mtx.Unlock()
+	f := r.facts
+	r.facts = nil
+	return f
+}
+
 type c26Tpt struct {
-	k   *key
-	w   *webrtc.WebRTC
-	rec *linkRecorder
+	k     *key
+	w     *webrtc.WebRTC
+	rec   *linkRecorder
+	block []string
+	conf  *webrtc.Config
 }
 
 func (e *engine) newC26Tpt(ctx context.Context, le *logrus.Entry, k *key, block ...string) *c26Tpt {
+	return e.newC26TptConf(ctx, le, k, &webrtc.Config{SignalingId: c26SignalingID, BlockPeers: block})
+}
+
+func (e *engine) newC26TptConf(ctx context.Context, le *logrus.Entry, k *key, conf *webrtc.Config) *c26Tpt {
 	rec := &linkRecorder{ch: make(chan struct{}, 8)}
-	w, err := webrtc.NewWebRTC(ctx, le, nil, &webrtc.Config{SignalingId: c26SignalingID, BlockPeers: block}, k.sk, rec)
+	w, err := webrtc.NewWebRTC(ctx, le, nil, conf, k.sk, rec)
 	if err != nil {
 		panic(err)
 	}
-	return &c26Tpt{k: k, w: w, rec: rec}
+	return &c26Tpt{k: k, w: w, rec: rec, block: conf.GetBlockPeers(), conf: conf}
+}
+
+func (t *c26Tpt) blocks(id peer.ID) bool { return contains(t.block, id.String()) }
+
+// hexStrs is the `a,b,c` list argument of the model driver for a list of strings (`_` = empty).
+func hexStrs(l []string) string {
+	if len(l) == 0 {
+		return "_"
+	}
+	var h []string
+	for _, x := range l {
+		h = append(h, lib.Hex([]byte(x)))
+	}
+	return strings.Join(h, ",")
+}
+
+func incomingKeys(w *webrtc.WebRTC) []string {
+	ks := webrtc.VerifIncomingSessionKeys(w)
+	sort.Strings(ks)
+	return ks
 }
 
 func showVerifTracker(t *webrtc.VerifTracker) string {
@@ -235,12 +279,18 @@ func (e *engine) incomingCase(ctx context.Context, t *c26Tpt, sigID string, sess
 	// routes by the session's remote peer
 	op := fmt.Sprintf("encrypt.addref local=%s remote=%s via=incoming", lib.Hex([]byte(t.k.id)), lib.Hex([]byte(sessRemote.id.String())))
 	model := e.m.Query(op)
-	answered := sigID == c26SignalingID && sessLocal.id == t.k.id
-	if !answered {
+	// does the handler answer this session at all? the model's three guards (signaling ID, local peer, block
+	// list); the monitors below use the harness's own statement of the same
+	hop := fmt.Sprintf("encrypt.handles local=%s sig=%s want=%s sl=%s sr=%s block=%s", lib.Hex([]byte(t.k.id)), lib.Hex([]byte(sigID)), lib.Hex([]byte(c26SignalingID)), lib.Hex([]byte(sessLocal.id)), lib.Hex([]byte(sessRemote.id)), hexStrs(t.block))
+	blocked := t.blocks(sessRemote.id)
+	answered := sigID == c26SignalingID && sessLocal.id == t.k.id && !blocked
+	if hm := e.m.Query(hop); hm != "resolver" {
 		model = "no-resolver"
 	} else if encTo.id != t.k.id {
 		model = "err"
 	}
+	trackersBefore, incomingBefore := trackerKeys(t.w), incomingKeys(t.w)
+	var incomingDuring []string
 	sess := &queueSession{local: sessLocal.id, remote: sessRemote.id, rx: make(chan []byte, 1)}
 	var got *webrtc.VerifTracker
 	var gotSig *webrtc.WebRtcSignal
@@ -273,6 +323,7 @@ func (e *engine) incomingCase(ctx context.Context, t *c26Tpt, sigID string, sess
 				}
 			}
 			if got != nil {
+				incomingDuring = incomingKeys(t.w)
 				break
 			}
 			select {
@@ -293,8 +344,12 @@ func (e *engine) incomingCase(ctx context.Context, t *c26Tpt, sigID string, sess
 		mon = "the incoming signal handler panics (" + gen + ")"
 	case emptyTracker(t.w) != "":
 		mon = emptyTracker(t.w)
+	case resolved && blocked:
+		mon = fmt.Sprintf("the transport of %s answers a signaling session with %s, a peer on its block list (outcome %s)", t.k.id.String(), sessRemote.id.String(), lib.Trunc(impl))
 	case resolved && !answered:
 		mon = fmt.Sprintf("the transport of %s (signaling %q) answers a signaling session of peer %s under signaling ID %q", t.k.id.String(), c26SignalingID, sessLocal.id.String(), sigID)
+	case got != nil && strings.Join(incomingDuring, ",") != sessRemote.id.String() && len(incomingBefore) == 0:
+		mon = fmt.Sprintf("while the signal of %s is being served the transport lists the incoming sessions %v", sessRemote.id.String(), incomingDuring)
 	case got != nil && encTo.id != t.k.id:
 		mon = "a signal encrypted to another peer's key was decoded and handed to a session"
 	case got != nil && got.PeerID != sessRemote.id:
@@ -304,8 +359,22 @@ func (e *engine) incomingCase(ctx context.Context, t *c26Tpt, sigID string, sess
 	case got == nil && answered && encTo.id == t.k.id && sessRemote.id != t.k.id:
 		mon = fmt.Sprintf("a well-formed signal from %s was not handed to its session (%s, %v)", sessRemote.id.String(), impl, resolveErr)
 	}
+	// once the resolver has returned (or never existed) nothing of the session is left behind: the
+	// incomingSessions entry is gone and so is a tracker that only this session referenced — a tracker
+	// that stays keeps a Quic listener / dialer for a peer nobody signals any more
+	if mon == "" && !strings.HasPrefix(impl, "panic") && impl != "not-delivered" {
+		after, inAfter := trackerKeys(t.w), incomingKeys(t.w)
+		switch {
+		case strings.Join(inAfter, ",") != strings.Join(incomingBefore, ","):
+			mon = fmt.Sprintf("after the signaling session with %s ended the transport still lists incoming sessions %v (before: %v)", sessRemote.id.String(), inAfter, incomingBefore)
+		case strings.Join(after, ",") != strings.Join(trackersBefore, ","):
+			mon = fmt.Sprintf("after the signaling session with %s ended the transport's session trackers changed from %v to %v", sessRemote.id.String(), trackersBefore, after)
+		}
+	}
 	br := "incoming.delivered"
 	switch {
+	case blocked && model == "no-resolver":
+		br = "incoming.blocked"
 	case model == "no-resolver":
 		br = "incoming.refused"
 	case model == "err":
@@ -413,7 +482,12 @@ func (e *engine) linkCase(ctx context.Context, x *c26Tpt, xFor *key, y *c26Tpt, 
 	}
 	x.rec.take()
 	y.rec.take()
+	x.rec.takeFacts()
+	y.rec.takeFacts()
 	var xEst, yEst []peer.ID
+	var xFacts, yFacts []linkFacts
+	var dial dialResult
+	dialReturned := false
 	impl := lib.Recover(func() string {
 		xt, _, _, err := webrtc.VerifAddSessionTrackerRef(x.w, xFor.id.String())
 		if err != nil {
@@ -429,6 +503,10 @@ func (e *engine) linkCase(ctx context.Context, x *c26Tpt, xFor *key, y *c26Tpt, 
 		px, py := newDcPipePair()
 		lctx, cancel := context.WithTimeout(ctx, wait)
 		defer cancel()
+		// the public entry point next to the link routine: DialPeer(xFor) waits on that same session
+		dctx, dcancel := context.WithCancel(ctx) // its own context: the wait below is not cut short by lctx
+		defer dcancel()
+		dialDone := startDial(dctx, x.w, xFor.id)
 		var wg sync.WaitGroup
 		wg.Add(2)
 		ret := make(chan error, 2)
@@ -451,11 +529,26 @@ func (e *engine) linkCase(ctx context.Context, x *c26Tpt, xFor *key, y *c26Tpt, 
 			}
 		case <-lctx.Done():
 		}
+		// a link the session established is handed to DialPeer at once (it is woken by the same broadcast)
+		// (bound only reached on a defect: with a link established DialPeer returns at the broadcast)
+		x.rec.mtx.Lock()
+		xHasLink := len(x.rec.facts) != 0
+		x.rec.mtx.Unlock()
+		select {
+		case dial = <-dialDone:
+			dialReturned = true
+		case <-time.After(map[bool]time.Duration{true: 30 * time.Second, false: 50 * time.Millisecond}[honest && xHasLink]):
+		}
 		cancel()
+		dcancel()
 		_ = px.Close()
 		_ = py.Close()
 		wg.Wait()
+		if !dialReturned {
+			dial = <-dialDone
+		}
 		xEst, yEst = x.rec.take(), y.rec.take()
+		xFacts, yFacts = x.rec.takeFacts(), y.rec.takeFacts()
 		if len(xEst) != 0 {
 			return "ok 1"
 		}
@@ -478,6 +571,18 @@ func (e *engine) linkCase(ctx context.Context, x *c26Tpt, xFor *key, y *c26Tpt, 
 	if mon == "" && honest && impl != "ok 1" {
 		mon = "the honest pair does not get a link: " + impl
 	}
+	if mon == "" {
+		mon = linkFactsVerdict(x, xFor, xFacts)
+	}
+	if mon == "" {
+		mon = linkFactsVerdict(y, yFor, yFacts)
+	}
+	if mon == "" {
+		mon = dialVerdict(x, xFor, &dial, dialReturned, xFacts)
+	}
+	if dialReturned && dial.lnk != nil {
+		e.rep.Branches["dial.link"]++
+	}
 	if strings.HasPrefix(impl, "panic") {
 		mon = "executeLink panics"
 	}
@@ -489,7 +594,8 @@ func (e *engine) linkCase(ctx context.Context, x *c26Tpt, xFor *key, y *c26Tpt, 
 }
 
 func (e *engine) runC26Link() {
-	e.rep.Require("addref.ok", "addref.err", "incoming.delivered", "incoming.refused", "incoming.err", "xmit", "link.accepted", "link.refused")
+	e.rep.Require("addref.ok", "addref.err", "incoming.delivered", "incoming.refused", "incoming.err", "incoming.blocked", "xmit", "link.accepted", "link.refused",
+		"dial.refused", "dial.err", "dial.ok", "dial.link", "peerDialer.dialer", "peerDialer.none")
 	ctx, cancel := context.WithCancel(context.Background())
 	defer cancel()
 	log := logrus.New()
@@ -525,6 +631,25 @@ func (e *engine) runC26Link() {
 		e.incomingCase(ctx, ta, c26SignalingID, a, a, a, "session-with-self")
 		e.incomingCase(ctx, ta, c26SignalingID, b, m, a, "session-of-another-local-peer")
 		e.incomingCase(ctx, ta, "other-signaling", a, b, a, "other-signaling-id")
+		e.incomingCase(ctx, ta, c26SignalingID, a, c, a, "from-blocked-peer")
+		e.incomingCase(ctx, ta, c26SignalingID, a, c, c, "from-blocked-peer-own-key")
+		// --- DialPeer / GetPeerDialer on the real transport ---
+		e.dialCase(ctx, ta, b.id, b, "known-peer")
+		e.dialCase(ctx, ta, e.newKey().id, nil, "new-peer")
+		e.dialCase(ctx, ta, c.id, c, "blocked")
+		e.dialCase(ctx, ta, a.id, a, "self")
+		e.dialCase(ctx, ta, peer.ID([]byte{0x12, 0x02, 0xaa, 0xbb}), nil, "malformed")
+		e.dialCase(ctx, ta, peer.ID(""), nil, "malformed")
+		for ci, conf := range []*webrtc.Config{
+			{SignalingId: c26SignalingID, BlockPeers: []string{c.id.String()}},
+			{SignalingId: c26SignalingID, BlockPeers: []string{c.id.String(), m.id.String()}, AllPeers: true},
+			{SignalingId: c26SignalingID, BlockPeers: []string{c.id.String()}, Dialers: map[string]*dialer.DialerOpts{b.id.String(): {Address: "webrtc"}, c.id.String(): {Address: "webrtc"}}},
+		} {
+			tc := e.newC26TptConf(ctx, le, a, conf)
+			for _, p := range []*key{b, c, m} {
+				e.peerDialerCase(ctx, tc, p, fmt.Sprintf("conf-%d", ci))
+			}
+		}
 		// --- executeXmitSignal ---
 		e.xmitCase(ctx, ta, b, []*key{m, c})
 		e.xmitCase(ctx, ta, m, []*key{b, c})
